@@ -77,6 +77,7 @@ type pathState struct {
 	parsedTimes map[int]parsedTime
 	signs      []signEvent
 	certKey    map[*Value]string
+	certs      []*Value
 	faultsOn   bool
 	nfault     int
 	localLoc   *Value
